@@ -353,6 +353,14 @@ fn q_ld_step(a: &[i64]) -> Result<String, String> {
   Ok(r_ld(&LunarDay::from_ymd(i(a[0]), i(a[1]), u(a[2])).next(i(a[3]))))
 }
 
+fn q_ld_hour(a: &[i64]) -> Result<String, String> {
+  let mut hours = LunarDay::from_ymd(i(a[0]), i(a[1]), u(a[2])).get_hours();
+  if u(a[3]) >= hours.len() {
+    return Err("no such hour".to_string());
+  }
+  Ok(r_lh(&hours.swap_remove(u(a[3]))))
+}
+
 fn q_lh_step(a: &[i64]) -> Result<String, String> {
   Ok(r_lh(&LunarHour::from_ymd_hms(i(a[0]), i(a[1]), u(a[2]), u(a[3]), u(a[4]), u(a[5])).next(i(a[6]))))
 }
@@ -578,6 +586,7 @@ pub static KINDS: &[KindDef] = &[
   KindDef { name: "CYCLE", arity: 2, exec: q_cycle, family: FAM_SC, cost: 0 },
   KindDef { name: "LD.step", arity: 4, exec: q_ld_step, family: FAM_LD, cost: 0 },
   KindDef { name: "LH.step", arity: 7, exec: q_lh_step, family: FAM_LH, cost: 0 },
+  KindDef { name: "LD.hour", arity: 4, exec: q_ld_hour, family: FAM_LD, cost: 1 },
 ];
 
 pub fn kind_by_name(name: &str) -> Option<usize> {
